@@ -4691,7 +4691,7 @@ def replay_junit_wellformed(a):
 
 
 SITES = {
-    "C06": [structured_report, structured_parse_closure, junit_exit_code, junit_test_case, junit_report, validate_execute_step, test_generic_report, test_result_exit_code, test_exit_code_domain],
+    "C06": [structured_report, structured_parse_closure, junit_exit_code, junit_test_case, junit_report, validate_execute_step, test_generic_report, test_result_exit_code, test_exit_code_domain, test_structured_evaluate],
     "C12": [sarif_per_file_results, structured_report, junit_test_case, junit_report, data_input_wiring, data_input_params_wiring, structured_merge_closure, test_get_by_result, test_structured_evaluate, report_combine_union],
     "C07": [flags_verdict_wiring, reporter_chain, library_entry_wiring, sarif_one_result_per_message, sarif_per_file_results, junit_escaping_sites, report_combine_union, structured_report, junit_test_case, junit_report, validate_execute_step,
             data_input_params_wiring, structured_merge_closure],
